@@ -474,6 +474,8 @@ structure AttrIn where
   attr : Attr
   gapNewlines : Nat
   gapSlash : Bool
+  /-- a comment stands behind the attribute on its line (`comment_follows_on_line`) -/
+  lineComment : Bool
   deriving DecidableEq, Repr
 
 def Attr.isDerive : Attr → Bool
@@ -555,7 +557,8 @@ def rewriteAttrsGo (merge skipDerives normDoc : Bool) : Nat → List AttrIn → 
       | some ps => (rewriteAttrsGo merge skipDerives normDoc fuel (attrs.drop n)).map (fun r => .derive ps :: r)
     else
       let out := match a.attr with
-        | .docAttr inner v => if normDoc then .docFromAttr (docCommentText inner v) else .single a.attr
+        | .docAttr inner v =>
+          if normDoc && !a.lineComment then .docFromAttr (docCommentText inner v) else .single a.attr
         | x => .single x
       (rewriteAttrsGo merge skipDerives normDoc fuel rest).map (fun r => out :: r)
 
